@@ -40,6 +40,7 @@ Theorem C04_priority :
      (if N.testbit p 0 then 64 else if N.testbit p 1 then 72 else if N.testbit p 2 then 80 else if N.testbit p 3 then 88 else 96))
     (upto 32) = true.
 Proof. vm_compute. reflexivity. Qed.
+Print Assumptions C04_priority.
 
 (* EI: interrupts can be dispatched only after the instruction that follows EI.  (i) EI itself leaves the master enable
    untouched and only marks it pending; (ii) at the boundary after EI nothing is dispatched and the following instruction
@@ -50,6 +51,7 @@ Theorem C04_ei_marks_pending :
     snd (brd b (xpc a)) = 251 ->
     spec_instr B brd bwr bset_ime bime bpending a b = (set_xeip true (after_fetch a), fst (brd b (xpc a)), [], 1).
 Proof. exact spec_ei. Qed.
+Print Assumptions C04_ei_marks_pending.
 Theorem C04_ei_delay :
   forall (B : Type) (bime : B -> bool) (bset_ime : B -> bool -> B) (bpending : B -> N) s b,
     halted s = false -> bime b = false -> eip s = true ->
@@ -64,6 +66,7 @@ Theorem C04_di_immediate :
     snd (brd b (xpc a)) = 243 ->
     spec_instr B brd bwr bset_ime bime bpending a b = (after_fetch a, bset_ime (fst (brd b (xpc a))) false, [], 1).
 Proof. exact spec_di. Qed.
+Print Assumptions C04_di_immediate.
 Theorem C04_reti_immediate :
   forall (B : Type) (brd : B -> N -> B * N) (bwr : B -> N -> N -> B) (bime : B -> bool) (bset_ime : B -> bool -> B)
          (bpending : B -> N) a b,
@@ -79,3 +82,13 @@ Theorem C04_reti_immediate :
        [(2, DRead, xsp a1); (3, DRead, inc16 (xsp a1))], 4).
 Proof. exact spec_reti. Qed.
 Print Assumptions C04_reti_immediate.
+
+(* the hypotheses of C04_dispatch are satisfiable: power-on CPU on the test bus with VBlank enabled and requested; after five
+   machine cycles it is at the VBlank vector with the master enable clear and the request acknowledged *)
+From V.model Require Import Ints SimpleBus.
+Example C04_example :
+  let b := mkSbus (sb_mem sb_init) (sb_rom sb_init) (ints_write_ie ints_init 1) in
+  let r := run_env sbus sb_rd sb_wr sb_trig sb_corrupt sb_ime sb_set_ime sb_pending sb_ack gen_tables (fun _ x => x) 0 5 (cpu_init, b) in
+  boundary cpu_init /\ halted cpu_init = false /\ sb_ime b = true /\ sb_pending b <> 0 /\
+  pc (fst r) = 64 /\ sp (fst r) = 65532 /\ sb_ime (snd r) = false /\ sb_pending (snd r) = 0.
+Proof. vm_compute. repeat split; discriminate. Qed.
